@@ -144,6 +144,43 @@ fn c15_history(which: &str) -> (bool, String) {
     }
 }
 
+// ---------------- C07: record/ontology round trips with over-long multi-byte names ----------------
+fn c07_long_name(which: &str) -> (bool, String) {
+    // 254 ASCII bytes followed by a 2-byte character: byte 255 falls inside the character
+    let name: String = "a".repeat(254) + "\u{e9}" + "tail";
+    panic::set_hook(Box::new(|_| {}));
+    let name2 = name.clone();
+    let which2 = which.to_string();
+    let r = panic::catch_unwind(move || -> Result<String, String> {
+        let mut b = Builder::new();
+        b.new_term("All", 1u32);
+        b.new_term("Phenotypic abnormality", 118u32);
+        if which2 == "term" {
+            b.new_term(&name2, 2u32);
+        } else {
+            b.new_term("x", 2u32);
+        }
+        let mut b = b.terms_complete();
+        b.add_parent(1u32, 118u32).unwrap();
+        b.add_parent(118u32, 2u32).unwrap();
+        let mut b = b.connect_all_terms();
+        if which2 == "gene" {
+            b.annotate_gene(GeneId::from(7u32), &name2, 2u32.into()).unwrap();
+        }
+        let ont = b.calculate_information_content().unwrap().build_with_defaults().unwrap();
+        let bytes = ont.as_bytes();
+        match Ontology::from_bytes(&bytes) {
+            Ok(o2) => Ok(format!("loaded {} terms", o2.len())),
+            Err(e) => Err(format!("loader rejected the bytes the writer emitted: {e}")),
+        }
+    });
+    match r {
+        Err(_) => (true, format!("{which}: name of {} bytes with a multi-byte character across byte 255: loader panicked on the writer's output", name.len())),
+        Ok(Err(e)) => (true, format!("{which}: name of {} bytes with a multi-byte character across byte 255: {e}", name.len())),
+        Ok(Ok(m)) => (false, format!("{which}: round trip ok ({m})")),
+    }
+}
+
 fn main() {
     let a: Vec<String> = std::env::args().collect();
     let kind = a.get(1).map(String::as_str).unwrap_or("");
@@ -160,6 +197,7 @@ fn main() {
             c20_display(u32::from_le_bytes([b[0], b[1], b[2], b[3]]))
         }
         k if k.starts_with("c15:") => c15_history(&k[4..]),
+        k if k.starts_with("c07:long_name_") => c07_long_name(&k[14..]),
         _ => (false, format!("unknown replay kind {kind}")),
     };
     if bad {
